@@ -303,6 +303,8 @@ int main(int argc, char** argv) {
   // timeouts: a child that outlives the deadline is ended
   all.push_back({"run_process", P{{"w1", 10}, {"s", 5000}, {"x", 0}}, -1, false, 300000, "none"});
   all.push_back({"run_process", P{{"w1", 10}, {"s", 5000}, {"x", 0}}, -1, true, 300000, "none"});
+  // a child that ignores SIGTERM must still be ended (the escalation to SIGKILL comes 5 s later)
+  all.push_back({"run_process", P{{"it", 0}, {"w1", 10}, {"s", 30000}, {"x", 0}}, -1, false, 300000, "none"});
   // repeated calls: no descriptor may be left behind however many times it is called
   for (int i = 0; i < (quick ? 5 : 40); i++) all.push_back({"run_process", progs[3].second, 0, false, 0, "none"});
 
